@@ -28,7 +28,7 @@ from .common import Check, REPO, run_driver, run_impl
 
 MODES = [None, "r", "w", "a"]
 MAX_SAFE = 9007199254740991
-MIN_NORMAL = Decimal(2) ** -1022
+MIN_NORMAL = Decimal(2.2250738585072014e-308)      # the smallest normal double 2**-1022, converted exactly
 
 # ==============================================================================================
 # worker side: descriptor -> real declaration, canonical values, the adapter
@@ -1467,6 +1467,48 @@ def gen_pairs_case(rng):
 # table obligation: the Lean copies of constant.py's maps equal the source text (T1-style, via ast)
 # ==============================================================================================
 
+TINY_PROBES = [Decimal("1E-308"), Decimal("2E-308"), Decimal("3E-308"),
+               # between Decimal(2) ** -1022 as rounded to 28 digits and the exact 2**-1022: tells the two apart
+               Decimal("2.2250738585072013830902327172E-308")]
+
+
+def _const_decimal(node):
+    """value of the constant expression `MIN_NORMAL_FLOAT = …` (read, never executed): decimal.Decimal(<int>) ** <int>
+    in the default context, or decimal.Decimal(sys.float_info.min) = the exact smallest normal double"""
+    import decimal
+    import sys as _sys
+
+    def is_decimal_call(n):
+        return isinstance(n, ast.Call) and ast.unparse(n.func) in ("decimal.Decimal", "Decimal") and len(n.args) == 1
+
+    if is_decimal_call(node):
+        a = node.args[0]
+        if isinstance(a, ast.Constant) and isinstance(a.value, (int, str)):
+            return decimal.Decimal(a.value)
+        if ast.unparse(a) == "sys.float_info.min":
+            return decimal.Decimal(_sys.float_info.min)      # IEEE-754 double: 2**-1022, converted exactly
+        return None
+    if isinstance(node, ast.BinOp) and isinstance(node.op, ast.Pow):
+        base = _const_decimal(node.left)
+        try:
+            e = ast.literal_eval(node.right)
+        except Exception:
+            return None
+        if base is not None and isinstance(e, int):
+            return base ** e
+    return None
+
+
+def _min_normal_probe(esrc):
+    tree = ast.parse(esrc)
+    for node in tree.body:
+        if isinstance(node, ast.Assign) and any(isinstance(x, ast.Name) and x.id == "MIN_NORMAL_FLOAT" for x in node.targets):
+            thr = _const_decimal(node.value)
+            if thr is not None:
+                return [p < thr for p in TINY_PROBES]
+    return None
+
+
 def source_tables(repo) -> dict:
     src = (repo / "utype/specs/json_schema/constant.py").read_text()
     tree = ast.parse(src)
@@ -1502,12 +1544,7 @@ def source_tables(repo) -> dict:
     esrc = (repo / "utype/utils/encode.py").read_text()
     m = re.search(r"MAX_SAFE_NUMBER\s*=\s*(\d+)", esrc)
     t["MAX_SAFE"] = int(m.group(1)) if m else None
-    m = re.search(r"MIN_NORMAL_FLOAT\s*=\s*decimal\.Decimal\((\d+)\)\s*\*\*\s*(-?\d+)", esrc)
-    if m:
-        thr = Decimal(int(m.group(1))) ** int(m.group(2))
-        t["MIN_NORMAL_tiny_probe"] = [Decimal(k) * Decimal(10) ** -308 < thr for k in (1, 2, 3)]
-    else:
-        t["MIN_NORMAL_tiny_probe"] = None
+    t["MIN_NORMAL_tiny_probe"] = _min_normal_probe(esrc)
     return t
 
 
